@@ -34,3 +34,15 @@ pub mod int_c04_private;
 
 #[path = "pub_shim_nom.rs"]
 pub mod pub_shim_nom;
+
+#[path = "pub_c05_ext.rs"]
+pub mod pub_c05_ext;
+
+#[path = "int_c05_ext.rs"]
+pub mod int_c05_ext;
+
+#[path = "pub_c10_dtls.rs"]
+pub mod pub_c10_dtls;
+
+#[path = "int_c10_dtls.rs"]
+pub mod int_c10_dtls;
